@@ -165,6 +165,37 @@ def rule_isdigit_int(ctx, rule_id, module_prefixes):
     return n
 
 
+def rule_base64_validated_strictly(ctx, rule_id, module_prefixes, floor=1):
+    """`base64.b64decode(s)` as a VALIDITY TEST (the result is thrown away, an except clause turns binascii.Error into the
+    refusal): without validate=True every character outside the alphabet -- blanks, line feeds, '!' -- is silently skipped
+    before the padding check, so text that is not base64 is accepted and emitted as given."""
+    run = ctx.run
+    prog = ctx.prog
+    n = 0
+    for fi in sorted(prog.functions.values(), key=lambda f: f.id):
+        if not fi.module.name.startswith(tuple(module_prefixes)) or fi.module.relpath.startswith("stix2/test"):
+            continue
+        k = 0
+        for t in body_walk(fi.node):
+            if not isinstance(t, ast.Try):
+                continue
+            for st in t.body:
+                c = st.value if isinstance(st, ast.Expr) else None
+                if isinstance(c, ast.Call) and call_simple_name(c) in ("b64decode", "standard_b64decode", "urlsafe_b64decode"):
+                    k += 1
+                    n += 1
+                    strict = any(kw.arg == "validate" and isinstance(kw.value, ast.Constant) and kw.value.value is True for kw in c.keywords) \
+                        or (len(c.args) >= 3 and isinstance(c.args[2], ast.Constant) and c.args[2].value is True)
+                    run.check(strict and call_simple_name(c) == "b64decode", rule_id,
+                              key(fi.module.relpath, fi.qualname, "base64-validity-test#%d" % k),
+                              "base64 text is validated with the lenient decoder: characters outside the alphabet are discarded before "
+                              "decoding, so 'YW Jj', 'YQ==\\n' or '!!!!YQ==' pass as binary values and are written out as given",
+                              file=fi.module.relpath, line=c.lineno, function=fi.qualname,
+                              expected="base64.b64decode(value, validate=True)", found=short(c))
+    run.floor(rule_id, max(run.floors.get(rule_id, 0), floor))
+    return n
+
+
 def loop_flag_sites(fi):
     """[(loop, flag name, assignment node, ok?)] boolean flags accumulated over a loop in fi: a name that is False before the loop,
     assigned inside it and read after it.  Inside the loop an assignment must keep what earlier iterations found: constant True,
